@@ -10,7 +10,7 @@
        0 .. N1-1               L1 itself                      (if EmitL1)
        then N1*S               Wrap(c1, L1[x])                (Depth >= 2)
        then N1*S*S             Wrap(c2, Wrap(c1, L1[x]))      (Depth >= 3)                      *)
-EXTENDS Universe, SequencesExt
+EXTENDS GoValues, SequencesExt
 
 CONSTANT Family
 
@@ -344,6 +344,39 @@ MetaWrap(s, x, k) ==
     [] s = 17 -> IdxL(x, <<0, -1, 1, 0, 0, 0>>[k]) [] s = 18 -> Proj(x, fA) [] s = 19 -> Proj(Flat(x), Identity) [] s = 20 -> Filt(x, Identity, fA)
     [] s = 21 -> VProj(x, Identity) [] s = 22 -> SliceOf(x, IntP(1), NoneP, NoneP) [] s = 23 -> C1("length", x) [] s = 24 -> C2("merge", x, Lit(O1(cC, I(3))))
 
+(* ---------------- C18: typed Go documents ------------------------------------------------------ *)
+fD == Field(<<100>>)  fEe == Field(<<101>>)  fF == Field(<<102>>)  fG == Field(<<103>>)  fH == Field(<<104>>)
+fCapA == Field(<<65>>)  fCapC == Field(<<67>>)
+NavL1 == SetToSeq({fA, fB, fC, fD, fEe, fF, fG, fH, fCapA, Field(<<122>>), Current,
+   Sub(fA, fA), Sub(fA, fB), Sub(fA, fC), Sub(fB, fA), Sub(fB, fC), Sub(fCapA, fCapA), Sub(fB, Field(<<122>>)),
+   IdxL(fC, 0), IdxL(fC, -1), IdxL(fC, 5), IdxL(fD, 0), IdxL(fD, 1), IdxL(fEe, 0), IdxL(fF, -1), IdxI(0), IdxI(1), IdxL(Sub(fA, fC), 0),
+   Sub(IdxL(fC, 0), fA), Sub(IdxL(fD, 0), fB), Sub(IdxL(fD, 1), fA),
+   Proj(fC, Identity), Proj(fC, fA), Proj(fC, fB), Proj(fC, fC), Proj(fC, IdxL(fC, 0)), Proj(fD, fA), Proj(fD, Identity), Proj(fEe, Identity), Proj(fF, Identity),
+   Proj(Identity, fA), Proj(Identity, Identity), Proj(fC, fCapA),
+   Proj(Flat(fC), Identity), Proj(Flat(Proj(fC, fC)), Identity), Proj(Flat(fD), fA), Proj(Flat(fEe), Identity), Proj(Flat(Identity), Identity),
+   Filt(fC, Identity, Cmp("gt", fA, Lit(I(1)))), Filt(fC, fB, Cmp("eq", fB, Lit(S(<<120>>)))), Filt(fD, fA, fA), Filt(fEe, Identity, Cmp("gte", Current, Lit(I(2)))),
+   Filt(fD, Identity, Current), Filt(fC, fA, fC), Filt(Identity, Identity, fA),
+   SliceOf(fC, IntP(1), NoneP, NoneP), SliceOf(fEe, NoneP, NoneP, IntP(-1)), SliceOf(fD, NoneP, IntP(1), NoneP), SliceOf(fF, NoneP, NoneP, IntP(2)),
+   SliceOf(Identity, IntP(1), NoneP, NoneP), Proj(IdxE(fC, SliceN(NoneP, IntP(2), NoneP)), fA),
+   MSL(<<Sub(fA, fA), Sub(fB, fA)>>), MSL(<<fG, fH>>), MSH(<<KV(<<120>>, Sub(fA, fA)), KV(<<121>>, Sub(IdxL(fD, 0), fA))>>),
+   Proj(fD, MSL(<<fA, fB>>)), Proj(fC, MSH(<<KV(<<120>>, fA)>>)), Proj(fD, MSH(<<KV(<<120>>, fA)>>)), Proj(Identity, MSL(<<fA>>)),
+   Or(Sub(fB, fA), Sub(fA, fA)), Or(fB, fA), And(fB, Sub(fB, fA)), And(fG, fH), Not(fB), Not(fG), Not(fC), Not(fD), Not(fH), Or(fC, fEe), And(fC, fF),
+   Pipe(Proj(fC, fA), IdxI(0)), Pipe(fEe, IdxI(0)), Pipe(fB, fA), Pipe(fD, IdxI(1)),
+   C1("length", fEe), C1("length", fH), C1("length", fC), C1("length", fD), C1("length", fF), C1("length", Sub(fA, fB)), C1("length", Sub(fA, fC)), C1("length", IdxL(fF, 0)),
+   Cmp("eq", Sub(fA, fA), Lit(I(1))), Cmp("lt", Sub(fA, fA), Sub(fB, fA)), Cmp("eq", fH, Lit(S(cAB))), Cmp("eq", fG, Lit(Bool(TRUE)))})
+NavNS == 9
+NavDim(s) == 1
+NavWrap(s, x, k) ==
+  CASE s = 1 -> Pipe(x, IdxI(0)) [] s = 2 -> MSL(<<x, fG>>) [] s = 3 -> Or(x, fH) [] s = 4 -> Not(x) [] s = 5 -> Proj(x, Identity)
+    [] s = 6 -> Proj(Flat(x), Identity) [] s = 7 -> Filt(x, Identity, Current) [] s = 8 -> IdxL(x, -1) [] s = 9 -> Sub(x, fA)
+(* every function applied to typed values (no-panic family; the outcome is not constrained) *)
+TypedArgs == <<fA, fB, fC, fD, fEe, fF, fG, fH, Current, IdxL(fD, 1)>>
+TypedL1 == SetToSeq(UNION {{C1(OneArg[s], TypedArgs[a]) : s \in 1..Len(OneArg)} : a \in 1..Len(TypedArgs)}
+   \cup UNION {{C2(f, TypedArgs[a], Ref(fA)), C2(f, TypedArgs[a], Ref(Current))} : f \in {"sort_by", "max_by", "min_by"}, a \in 1..Len(TypedArgs)}
+   \cup UNION {{C2("map", Ref(fA), TypedArgs[a]), C2("contains", TypedArgs[a], Lit(S(cA))), C2("contains", TypedArgs[a], Lit(I(1))), C2("join", Lit(S(<<44>>)), TypedArgs[a]),
+                C2("starts_with", TypedArgs[a], Lit(S(cA))), C2("merge", TypedArgs[a], TypedArgs[a]), C2("not_null", TypedArgs[a], fA), C2("contains", fF, TypedArgs[a]),
+                C2("ends_with", fH, TypedArgs[a])} : a \in 1..Len(TypedArgs)})
+
 (* ---------------- C08: slices ------------------------------------------------------------- *)
 (* parameters: absent, the window [-L-2, L+2], and huge magnitudes of both signs *)
 SlL == IF Thorough THEN 6 ELSE 4
@@ -393,18 +426,18 @@ DocsPrec == {
 L1 == CASE Family = "C01" -> CoreL1 [] Family = "C03" -> PrecL1 [] Family = "C02" -> ProjL1 [] Family = "C07" -> OpL1 [] Family = "C07d" -> OpDocL1
         [] Family = "C09" -> FnL1 [] Family = "C09n" -> FnNestL1 [] Family = "C10" -> <<>> [] Family = "C10d" -> MxDocL1
         [] Family = "C10k" -> ByL1 [] Family = "C11" -> ErrL1 [] Family = "C16" -> JsonL1
-        [] Family = "C08" -> <<>> [] Family = "C08i" -> SlIdxL1 [] Family = "C06" -> RoL1 [] Family = "C15" -> MetaL1
-NS == CASE Family = "C01" -> CoreNS [] Family = "C03" -> PrecNS [] Family = "C06" -> RoNS [] Family = "C15" -> MetaNS [] Family = "C02" -> ProjNS [] Family = "C07" -> OpNS [] Family = "C09" -> FnNS
+        [] Family = "C08" -> <<>> [] Family = "C08i" -> SlIdxL1 [] Family = "C06" -> RoL1 [] Family = "C15" -> MetaL1 [] Family = "C18" -> NavL1 [] Family = "C18p" -> TypedL1
+NS == CASE Family = "C01" -> CoreNS [] Family = "C03" -> PrecNS [] Family = "C06" -> RoNS [] Family = "C15" -> MetaNS [] Family = "C18" -> NavNS [] Family = "C02" -> ProjNS [] Family = "C07" -> OpNS [] Family = "C09" -> FnNS
         [] Family = "C09n" -> FnNestNS [] Family = "C11" -> CtxNS [] OTHER -> 0
-Dim(s) == CASE Family = "C01" -> CoreDim(s) [] Family = "C03" -> PrecDim(s) [] Family = "C06" -> RoDim(s) [] Family = "C15" -> MetaDim(s) [] Family = "C02" -> ProjDim(s) [] Family = "C07" -> OpDim(s) [] Family = "C09" -> FnDim(s)
+Dim(s) == CASE Family = "C01" -> CoreDim(s) [] Family = "C03" -> PrecDim(s) [] Family = "C06" -> RoDim(s) [] Family = "C15" -> MetaDim(s) [] Family = "C18" -> NavDim(s) [] Family = "C02" -> ProjDim(s) [] Family = "C07" -> OpDim(s) [] Family = "C09" -> FnDim(s)
             [] Family = "C09n" -> FnNestDim(s) [] Family = "C11" -> CtxDim(s)
-Wrap(s, x, k) == CASE Family = "C01" -> CoreWrap(s, x, k) [] Family = "C03" -> PrecWrap(s, x, k) [] Family = "C06" -> RoWrap(s, x, k) [] Family = "C15" -> MetaWrap(s, x, k) [] Family = "C02" -> ProjWrap(s, x, k) [] Family = "C07" -> OpWrap(s, x, k)
+Wrap(s, x, k) == CASE Family = "C01" -> CoreWrap(s, x, k) [] Family = "C03" -> PrecWrap(s, x, k) [] Family = "C06" -> RoWrap(s, x, k) [] Family = "C15" -> MetaWrap(s, x, k) [] Family = "C18" -> NavWrap(s, x, k) [] Family = "C02" -> ProjWrap(s, x, k) [] Family = "C07" -> OpWrap(s, x, k)
                    [] Family = "C09" -> FnWrap(s, x, k) [] Family = "C09n" -> FnNestWrap(s, x, k) [] Family = "C11" -> CtxWrap(s, x, k)
 DocSet == CASE Family = "C01" -> DocsCore [] Family = "C03" -> DocsPrec [] Family = "C02" -> DocsProj [] Family \in {"C07", "C09", "C10", "C10k"} -> {Null}
             [] Family = "C07d" -> DocsOp [] Family = "C09n" -> DocsFnNest [] Family = "C10d" -> DocsMx [] Family = "C11" -> DocsCtx
-            [] Family = "C16" -> DocsJson [] Family \in {"C08", "C08i"} -> DocsSlice [] Family = "C06" -> DocsRo [] Family = "C15" -> DocsFnNest \cup DocsCtx
+            [] Family = "C16" -> DocsJson [] Family \in {"C08", "C08i"} -> DocsSlice [] Family = "C06" -> DocsRo [] Family = "C15" -> DocsFnNest \cup DocsCtx [] Family \in {"C18", "C18p"} -> {J(GoDocs[i]) : i \in 1..Len(GoDocs)}
 (* number of wrapping levels: 1 = only L1; 2 = one Wrap; 3 = two nested Wraps *)
-Levels == CASE Family \in {"C07d", "C10d", "C10k", "C16", "C08i"} -> 1 [] Family = "C08" -> 0 [] Family \in {"C01", "C07", "C11", "C03", "C15"} -> 3 [] Family = "C10" -> 0 [] OTHER -> 2
+Levels == CASE Family \in {"C07d", "C10d", "C10k", "C16", "C08i", "C18p"} -> 1 [] Family = "C08" -> 0 [] Family \in {"C01", "C07", "C11", "C03", "C15"} -> 3 [] Family = "C10" -> 0 [] OTHER -> 2
 EmitL1 == Family \notin {"C09"}
 Styles == <<StMin, StFull, StQuoted>>
 WsOf(k) == CASE k = 1 -> "tight" [] k = 2 -> "space" [] k = 3 -> "mixed"
